@@ -112,7 +112,7 @@ PROPS['C16'] = dict(engine='ni', level='model_checking', foot=[], quick={}, thor
 PROPS['C20'] = dict(engine='conc', level='model_checking', foot=[], quick={}, thorough={},
                     technique='independence of disjoint clients as a TLA+ invariant over Apply (TLC, indep family); below the request, spec/Schedules.tla: TLC enumerates every schedule of two in-flight requests at backend-call granularity (invariant Independent, negative control with a shared cell) and each schedule is replayed deterministically against one real instance through a gate in the store; plus free-running concurrent client scripts under the Go race detector; per-client observations compared with solo runs',
                     assumptions=['the race detector only sees the interleavings that actually happen in the run (free scheduling, 6-8 clients, many rounds); it is the deciding observation for the "no data race" clause, which a specification cannot express below its atomic steps',
-                                 'schedules: two clients, every step of a 10-13 step script of the first paired with the same step and with rotated steps of the second, every interleaving of their backend calls up to 4 (quick) / 6 (thorough) calls per request (longer requests: the enumerated prefix, then sequential); mail is sent synchronously in these runs (the mail goroutines are exercised by the free-running part); calls without a request context (the hasher) are not scheduling points',
+                                 'schedules: two clients, every step of a 10-13 step script of the first paired with the same step and with rotated steps of the second, every interleaving of their backend calls up to 4 (quick) / 6 (thorough) calls per request (longer requests: the enumerated prefix, then sequential); mail is sent synchronously in these runs (the mail goroutines are exercised by the free-running part); calls without a request context (the hasher) are not scheduling points; every read of crypto/rand.Reader is one (taken after the bytes are delivered), and two clients must never end up holding the same random secret (OAuth2 state, remember cookie, 2FA tokens / secrets in the client state)',
                                  'a race report is attributed to the library when a frame lies under the repository path; a race in harness code only is exit 2',
                                  'SMTPMailer dials 127.0.0.1:9 (refused); the mime boundary generator runs before the dial'])
 
